@@ -19,6 +19,8 @@
 (*  verbatim_not_column_exact  outside containers: content line i is not   *)
 (*                       source line i with exactly W columns of leading   *)
 (*                       blanks removed (4 / the fence's indent / 0)       *)
+(*  verbatim_not_column_exact_in_quote  the same inside block quotes, for  *)
+(*                       tab-free lines that carry all their quote markers *)
 (*  fence_markup / fence_info   line = prefix markup info, markup maximal  *)
 (*  hr_markup            same character and COUNT as the markers written   *)
 (*  heading_markup       '#'^level at the start of the line, maximal;      *)
@@ -79,6 +81,26 @@ LeadColsFrom(s, k, col) ==
     ELSE col
 LeadCols(s) == LeadColsFrom(s, 1, 0)
 
+(* inside block quotes only (no list item around), for lines without tabs: remove nq times "up to three spaces,
+   a quote marker, one optional space"; <<ok, rest>> - ok is FALSE when the line has no such prefix (not judged) *)
+RECURSIVE SpacesAt(_, _)
+SpacesAt(s, k) == IF k <= Len(s) /\ s[k] = 32 THEN 1 + SpacesAt(s, k + 1) ELSE 0
+RECURSIVE Unquote(_, _)
+Unquote(s, n) ==
+    IF n = 0 THEN <<TRUE, s>>
+    ELSE LET sp == SpacesAt(s, 1) IN
+         IF sp > 3 \/ sp + 1 > Len(s) \/ s[sp + 1] # 62 THEN <<FALSE, s>>
+         ELSE LET r == SubSeq(s, sp + 2, Len(s)) IN
+              Unquote(IF r # <<>> /\ r[1] = 32 THEN Tail(r) ELSE r, n - 1)
+NoTab(s) == \A k \in DOMAIN s : s[k] # 9
+QuotedExact(e, first, n) ==
+    LET open == Unquote(Line(e.map[1]), e.nq)
+        W == CASE e.ty = "code_block" -> 4 [] e.ty = "fence" -> SpacesAt(open[2], 1) [] OTHER -> 0
+    IN (e.ty # "fence" \/ (open[1] /\ NoTab(Line(e.map[1])))) =>
+       \A i \in 1..n :
+          LET src == Line(first + i - 1) u == Unquote(src, e.nq) IN
+          (NoTab(src) /\ u[1]) => e.cl[i] = Strip(u[2], W)
+
 VerbatimVerdict(e) ==
     LET b == e.map[1] en == e.map[2] n == Len(e.cl)
         first == IF e.ty = "fence" THEN b + 1 ELSE b
@@ -91,6 +113,7 @@ VerbatimVerdict(e) ==
     ELSE IF \E i \in 1..n : ~FromLine(e.cl[i], Line(first + i - 1), e.nq, e.nl) THEN "verbatim_altered"
     ELSE IF terminated /\ e.fin # 1 THEN "verbatim_line_end_dropped"
     ELSE IF e.nq = 0 /\ e.nl = 0 /\ \E i \in 1..n : e.cl[i] # Strip(Line(first + i - 1), W) THEN "verbatim_not_column_exact"
+    ELSE IF e.nq > 0 /\ e.nl = 0 /\ ~QuotedExact(e, first, n) THEN "verbatim_not_column_exact_in_quote"
     ELSE "ok"
 
 (* line = prefix ++ run ++ rest, run = c^k maximal *)
